@@ -554,6 +554,7 @@ def run(ctx):
         pb = prob_of(lq)
         nt = (T >= 2)
         # state machine over T steps
+        asym_max = 0.0
         recs = []
         for t in range(T):
             P0, d0 = fm(lq.P), F(float(lq.d))
@@ -577,6 +578,7 @@ def run(ctx):
             # every step (observed x10 per step; the recursion is useless beyond ~18 steps on such inputs). Measured;
             # a finding only if listed (key update_asymmetry_growth) — inside T <= 12 it stays below the path envelope.
             asym = float(np.abs(Pc - Pc.T).max()) / max(1.0, float(np.abs(Pc).max()))
+            asym_max = max(asym_max, asym)
             if asym > 1e-9:
                 ctx.count("fin:asymmetry>1e-9")
                 if "update_asymmetry_growth" in ctx.known:
@@ -586,6 +588,13 @@ def run(ctx):
                 ctx.spec_fail("update_symmetry", "P_t asymmetric by %.2e (relative) after %d <= 12 updates" % (asym, t + 1),
                               {"problem": pb.wire(), "Rf": ratm(Rf), "T": T, "step": t})
         ctx.count("fin:steps", T)
+        # chained comparisons on an instance whose recursion amplifies the antisymmetric rounding error (see above)
+        # use an envelope that follows the measured asymmetry; every single step is still compared at ENV
+        env_i = max(ENV_PATH, 1000.0 * asym_max)
+        if env_i > ENV_PATH:
+            ctx.count("fin:path-envelope-widened")
+        cmp_trace = cmp_fields(env_i, list_keys=("F", "P"), scalar_keys=("d",))
+        cmp_seq = cmp_fields(env_i, list_keys=("x", "u"))
         # whole trace from Rf
         impl_trace = "F=%s P=%s d=%s" % (showms([r[0] for r in recs]), showms([r[1] for r in recs]),
                                           ",".join(fx(r[2]) for r in recs))
@@ -606,7 +615,7 @@ def run(ctx):
             P_qp = qp_value_matrix(pb, fm(Rf), T)
             if P_qp is not None:
                 ctx.count("fin:qp-oracle")
-                why = close_m(fm(recs[-1][1]), P_qp, ENV_PATH)
+                why = close_m(fm(recs[-1][1]), P_qp, env_i)
                 if why:
                     ctx.spec_fail("finite_optimum", "P_0 is not the value matrix of the T-period programme: " + why,
                                   {"problem": pb.wire(), "Rf": ratm(Rf), "T": T, "P0": fxm(recs[-1][1])})
@@ -894,6 +903,7 @@ def run_histories(ctx, cases, LQ):
             T, Rf = 0, None
             lq = make_lq(LQ, Q, R, A, B, C, N, beta, cross, forms=forms)
         pb = prob_of(lq)
+        envh = {"e": ENV_PATH}     # widened when the object's P shows amplified asymmetry (see the finite-horizon block)
         kept = []      # every array a call returned: (label, call index, array, bytes at return, judge or None)
 
         def audit(after):
@@ -1017,19 +1027,19 @@ def run_histories(ctx, cases, LQ):
                             return None
                         for t in range(Te):
                             Ft = ch[Te - 1 - t][0] if finite else Fq_now
-                            w = close_m(us[t], scal(F(-1), mm(Ft, xs[t])), ENV_PATH)
+                            w = close_m(us[t], scal(F(-1), mm(Ft, xs[t])), envh["e"])
                             if w:
                                 return "u_%d is not -F_%d x_%d%s: %s" % (t, t, t, " of the %d-period programme" % Te if finite else "", w)
                             nxt = madd(madd(mm(pb.A, xs[t]), mm(pb.B, us[t])), mm(pb.C, [[W[r_][t + 1]] for r_ in range(lq.j)]))
-                            w = close_m(xs[t + 1], nxt, ENV_PATH)
+                            w = close_m(xs[t + 1], nxt, envh["e"])
                             if w:
                                 return "x_%d != A x + B u + C w: %s" % (t + 1, w)
                         return None
 
                     bad = judge()
                     if not bad and finite and ch is not None:
-                        w = close_m(fm(lq.P), ch[-1][1], ENV_PATH)
-                        if not w and abs(F(float(lq.d)) - ch[-1][2]) > F(ENV_PATH) * max(1, abs(ch[-1][2])):
+                        w = close_m(fm(lq.P), ch[-1][1], envh["e"])
+                        if not w and abs(F(float(lq.d)) - ch[-1][2]) > F(envh["e"]) * max(1, abs(ch[-1][2])):
                             w = "d=%r, programme %.12g" % (lq.d, float(ch[-1][2]))
                         if w:
                             bad = "(P, d) left in the object is not the value of the %d-period programme: %s" % (Te, w)
@@ -1037,7 +1047,7 @@ def run_histories(ctx, cases, LQ):
                             P_qp = qp_value_matrix(pb, fm(tofloat(Rf)), Te)
                             if P_qp is not None:
                                 ctx.count("hist:qp-oracle")
-                                w = close_m(fm(lq.P), P_qp, ENV_PATH)
+                                w = close_m(fm(lq.P), P_qp, envh["e"])
                                 if w:
                                     bad = "P left in the object is not the value matrix of the stacked programme: " + w
                     if bad:
@@ -1053,6 +1063,11 @@ def run_histories(ctx, cases, LQ):
                     v_ = getattr(lq, nm)
                     if isinstance(v_, np.ndarray) and v_.ndim == 2:
                         kept.append(("lq.%s after call" % nm, i, v_, v_.tobytes(), None))
+                if isinstance(lq.P, np.ndarray) and lq.P.ndim == 2:
+                    asym_h = float(np.abs(lq.P - lq.P.T).max()) / max(1.0, float(np.abs(lq.P).max()))
+                    if 1000.0 * asym_h > envh["e"]:
+                        envh["e"] = 1000.0 * asym_h
+                        ctx.count("hist:path-envelope-widened")
                 audit(i)
             except (np.linalg.LinAlgError, ValueError, TypeError) as e:
                 impl.append("E%d=%s" % (i, "LinAlgError" if isinstance(e, np.linalg.LinAlgError) else type(e).__name__))
@@ -1067,8 +1082,8 @@ def run_histories(ctx, cases, LQ):
         ctx.count("hist:histories")
         n_upd = sum(1 for kd in kinds if kd == "u")
         if (finite and small_growth(k, longest)) or (not finite and max_te <= 12 and n_upd <= 2):
-            cases.append(Case("C07 rat hist " + head_r + " ".join(req_r), impl_s, cmp=cmp_hist(ENV_PATH), tag="hist-rat"))
-        cases.append(Case("C07 float hist " + head_f + " ".join(req_f), impl_s, cmp=cmp_hist(ENV_PATH), tag="hist-float"))
+            cases.append(Case("C07 rat hist " + head_r + " ".join(req_r), impl_s, cmp=cmp_hist(envh["e"]), tag="hist-rat"))
+        cases.append(Case("C07 float hist " + head_f + " ".join(req_f), impl_s, cmp=cmp_hist(envh["e"]), tag="hist-float"))
 
 
 # ----------------------------------------------------------------------------------------------
